@@ -41,6 +41,7 @@ class FuncDef:
     cls: Optional["ClassDef"] = None
     parent: Optional["FuncDef"] = None
     nested: Dict[str, "FuncDef"] = field(default_factory=dict)
+    nested_nodes: Dict[int, "FuncDef"] = field(default_factory=dict)  # id(ast node) -> nested function
 
     @property
     def is_async(self) -> bool:
@@ -241,10 +242,16 @@ class SrcModel:
         index_body(mod.tree.body)
 
     def _index_function(self, node, mod: Module, cls: Optional[ClassDef], parent: Optional[FuncDef], qualname: str) -> FuncDef:
+        n_dup = 1
+        base_q = qualname
+        while qualname in self.functions:
+            n_dup += 1
+            qualname = f"{base_q}#{n_dup}"
         fn = FuncDef(qualname=qualname, name=node.name, node=node, module=mod, cls=cls, parent=parent)
         self.functions[qualname] = fn
         if parent is not None:
             parent.nested[node.name] = fn
+            parent.nested_nodes[id(node)] = fn
         elif cls is not None:
             cls.methods[node.name] = fn
         else:
